@@ -257,10 +257,11 @@ def keySinkStr (s : List Char) (yaml12 : Bool) : List Char :=
   if isPlainSafe s && isPlainValueSafe s yaml12 true && !isUnsafePlainShape s then s
   else '"' :: (s.flatMap keyEscape ++ ['"'])
 
-/-- `write_plain_or_quoted` -/
-def writePlainOrQuoted (s : List Char) (quoteAll : Bool) : List Char :=
+/-- `write_plain_or_quoted` (the name of an enum variant with data, as a mapping key): plain exactly where
+`KeyScalarSink::serialize_str` writes a key plain (fix cf4e1d9) -/
+def writePlainOrQuoted (s : List Char) (quoteAll : Bool) (yaml12 : Bool := false) : List Char :=
   if quoteAll then (if needsDoubleQuotes s then writeQuoted s else writeSingleQuoted s)
-  else if isPlainSafe s && !isUnsafePlainShape s then s
+  else if isPlainSafe s && isPlainValueSafe s yaml12 true && !isUnsafePlainShape s then s
   else writeQuoted s
 
 /-- `write_plain_or_quoted_value` -/
